@@ -195,7 +195,7 @@ def props_theorems(prop):
         if m: ns.append(m.group(1)); continue
         m = re.match(r"\s*end\s+(\S+)", line)
         if m and ns and ns[-1] == m.group(1): ns.pop(); continue
-        m = re.match(r"\s*(?:@\[[^\]]*\]\s*)?(?:private\s+|protected\s+)?theorem\s+(\S+)", line)
+        m = re.match(r"\s*(?:@\[[^\]]*\]\s*)?(?:protected\s+)?theorem\s+(\S+)", line)   # private helpers are covered transitively
         if m: names.append(".".join(ns + [m.group(1)]))
     return names
 
